@@ -20,6 +20,8 @@ type RunOpts struct {
 	Findings      *core.FindingsFile
 	OnlyRule      string // replay: restrict to one rule
 	OnlyKey       string
+	// Extra holds per-property additions to the evidence coverage (the sensitivity self-test of the thorough tier).
+	Extra map[string]map[string]any
 }
 
 type buildCtx struct {
@@ -190,6 +192,9 @@ func RunProperties(props []string, o RunOpts) (bad []string) {
 			"exhaustive":     true,
 			"checker_cmd":    fmt.Sprintf("%s/bin/olacheck -prop %s -tier %s", o.Verif, id, o.Tier),
 		}
+		for k, v := range o.Extra[id] {
+			cov[k] = v
+		}
 		ev := core.Evidence{PropertyID: id, Tier: o.Tier, Seed: o.Seed, Level: "other", Coverage: cov,
 			Assumptions: append([]string{
 				"go/types, go/ssa and the VTA call graph of golang.org/x/tools v0.29.0 represent the program faithfully",
@@ -228,4 +233,42 @@ func dedupe(in []string) []string {
 		}
 	}
 	return out
+}
+
+// AnalyseQuiet loads the repository (with an optional in-memory overlay), runs the rules of the given
+// properties with their views, and returns the obligations per property without printing anything.
+func AnalyseQuiet(repo string, overlay map[string][]byte, props []string) (map[string][]core.Ob, error) {
+	p, err := core.Load(core.LoadConfig{Dir: repo, Overlay: overlay})
+	if err != nil {
+		return nil, err
+	}
+	c := core.NewCtx(p)
+	ruleObs := map[string][]core.Ob{}
+	out := map[string][]core.Ob{}
+	for _, id := range props {
+		prop := GetProperty(id)
+		if prop == nil {
+			continue
+		}
+		for _, spec := range prop.Rules {
+			rid, tag := splitSpec(spec)
+			obs, done := ruleObs[rid]
+			if !done {
+				obs = append([]core.Ob(nil), RunRule(c, rid)...)
+				ruleObs[rid] = obs
+			}
+			selected := 0
+			for _, ob := range obs {
+				if tag != "" && !ob.HasTag(tag) && ob.Kind != "vacuous" && ob.Kind != "unresolved-role" && !(ob.Kind == "undecided" && ob.Key == "panic") {
+					continue
+				}
+				selected++
+				out[id] = append(out[id], ob)
+			}
+			if tag != "" && selected == 0 {
+				out[id] = append(out[id], core.Ob{Rule: rid, Key: "view:" + tag, OK: false, Kind: "vacuous", Pos: "-", Detail: "empty view"})
+			}
+		}
+	}
+	return out, nil
 }
